@@ -749,7 +749,13 @@ public:
 	[[nodiscard]] std::string GetPath() const override
 	{
 		std::string path = CMsgPackScopeBase::GetPath();
-		if (mCurrentKey)
+		if (mChildScopeKey)
+		{
+			// The key of an opened child scope is kept as a copy (a string key is only a view to the reader's buffer)
+			path.push_back(path_separator);
+			path += *mChildScopeKey;
+		}
+		else if (mCurrentKey)
 		{
 			path.push_back(path_separator);
 			path += mCurrentKey.ToString();
@@ -798,7 +804,9 @@ public:
 	{
 		if (FindValueByKey(key))
 		{
-			if (size_t sz = 0; mMsgPackReader->ReadArraySize(sz)) {
+			if (size_t sz = 0; mMsgPackReader->ReadArraySize(sz))
+			{
+				mChildScopeKey = mCurrentKey.ToString();
 				return std::make_optional<CMsgPackReadArrayScope<TReader>>(sz, mMsgPackReader, GetContext(), this);
 			}
 			OnFinishChildScope();
@@ -811,7 +819,9 @@ public:
 	{
 		if (FindValueByKey(key))
 		{
-			if (size_t sz = 0; mMsgPackReader->ReadMapSize(sz)) {
+			if (size_t sz = 0; mMsgPackReader->ReadMapSize(sz))
+			{
+				mChildScopeKey = mCurrentKey.ToString();
 				return std::make_optional<CMsgPackReadObjectScope<TReader>>(sz, mMsgPackReader, GetContext(), this);
 			}
 			OnFinishChildScope();
@@ -828,7 +838,9 @@ public:
 			if (mMsgPackReader->ReadValueType() != ValueType::BinaryArray) {
 				return std::nullopt;
 			}
-			if (size_t sz = 0; mMsgPackReader->ReadBinarySize(sz)) {
+			if (size_t sz = 0; mMsgPackReader->ReadBinarySize(sz))
+			{
+				mChildScopeKey = mCurrentKey.ToString();
 				return std::make_optional<CMsgPackReadBinaryScope<TReader>>(sz, mMsgPackReader, GetContext(), this);
 			}
 			OnFinishChildScope();
@@ -838,6 +850,7 @@ public:
 
 	void OnFinishChildScope() override
 	{
+		mChildScopeKey.reset();
 		mCurrentKey.Reset();
 		++mIndex;
 	}
@@ -927,6 +940,7 @@ private:
 	const size_t mSize;
 	size_t mIndex = 0;
 	MsgPackVariableKey mCurrentKey;
+	std::optional<std::string> mChildScopeKey;
 };
 
 
